@@ -48,11 +48,13 @@ POOL: List[str] = [
         "!=\nassert\nadmin:\ncallsub s\nint 1\nreturn\ns:\ntxn TypeEnum\nint appl\n==\nassert\nretsub\n",
     # 6: intcblock constants
     P + "intcblock 0 1 1000\ntxn Fee\nintc_2\n<=\nassert\ntxn GroupIndex\nintc_0\n==\nassert\nintc_1\nreturn\n",
+    # 8: patterns of the instruction-reporting detectors (constant gtxns, self access, sender access)
+    P + "int 1\ngtxns Fee\nint 1000\n<=\nassert\ntxn GroupIndex\ngtxns RekeyTo\n" + Z + "\n==\nassert\nint 0\ngtxns Sender\ntxn Sender\n==\nreturn\n",
     # 7: two subroutines called from a loop
     P + "l:\ncallsub x\ntxn FirstValid\nint 7\n>\nbnz l\ncallsub y\nint 1\nreturn\nx:\ntxn AssetCloseTo\n" + Z + "\n==\nassert\nretsub\ny:\ncallsub x\nretsub\n",
 ]
 DETS = ("rekey-to", "can-close-account", "can-close-asset", "missing-fee-check", "is-updatable", "is-deletable",
-        "unprotected-updatable", "unprotected-deletable", "group-size-check")
+        "unprotected-updatable", "unprotected-deletable", "group-size-check", "constant-gtxn", "sender-access", "self-access")
 
 
 def snapshot(src: str, name: str, dets: Sequence[str] = DETS, clear: bool = False) -> Dict[str, Any]:
@@ -82,12 +84,53 @@ def snapshot(src: str, name: str, dets: Sequence[str] = DETS, clear: bool = Fals
                            "stdout": hashlib.sha1((cap.out + cap.err).encode()).hexdigest(), "detectors": {}, "ctx_after": {}}
     for det in dets:
         outs = harness.run_detector_outputs(tealer, det)
-        paths = [[b.idx for b in p] for o in outs for p in o.paths]
+        paths = [[b.idx for b in p] for o in outs for p in getattr(o, "paths", [])]
         js = json.dumps([o.to_json() for o in outs], indent=2)
         out["detectors"][det] = (paths, hashlib.sha1(js.encode()).hexdigest())
         out["ctx_after"][det] = contexts(False)
     out["contexts_end"] = contexts(True)
     return out
+
+
+def multi_contract(order: Sequence[int]) -> Dict[int, Any]:
+    """The pool contracts `order` loaded into one Tealer through a group configuration (one
+    transaction per contract); group-size-check reports paths per contract."""
+    import tempfile  # pylint: disable=import-outside-toplevel
+    from pathlib import Path  # pylint: disable=import-outside-toplevel
+    from mc import harness  # pylint: disable=import-outside-toplevel
+    from tealer.teal.parse_teal import parse_teal  # pylint: disable=import-outside-toplevel
+    from tealer.utils.command_line.group_config import read_config_from_file  # pylint: disable=import-outside-toplevel
+    from tealer.utils.command_line.common import init_tealer_from_config  # pylint: disable=import-outside-toplevel
+    from tealer.utils.teal_enums import ContractType  # pylint: disable=import-outside-toplevel
+
+    base_dir = os.environ.get("TEALER_ROOT_OUTPUT_DIR") or None
+    if base_dir:
+        os.makedirs(base_dir, exist_ok=True)
+    d = tempfile.mkdtemp(prefix="c14-", dir=base_dir)
+    lines = ["name: C14", "contracts:"]
+    txns = ["groups:", "  - operation: op", "    transactions:"]
+    with harness.capture():
+        for k, i in enumerate(order):
+            with open(os.path.join(d, f"p{i}.teal"), "w", encoding="utf-8") as f:
+                f.write(POOL[i])
+            is_app = parse_teal(POOL[i]).contract_type == ContractType.ApprovalProgram
+            lines += [f"  - name: p{i}", f"    file_path: p{i}.teal", f"    type: {'ApprovalProgram' if is_app else 'LogicSig'}", "    version: 8",
+                      "    subroutines: []", "    functions:", "      - name: main", '        dispatch_path: ["B0"]']
+            txns += [f"      - txn_id: T{k}", f"        txn_type: {'appl' if is_app else 'txn'}",
+                     f"        {'application' if is_app else 'logic_sig'}:", f"          contract: p{i}", "          function: main"]
+        cfg = os.path.join(d, "config.yaml")
+        with open(cfg, "w", encoding="utf-8") as f:
+            f.write("\n".join(lines + txns) + "\n")
+        tealer = init_tealer_from_config(read_config_from_file(Path(cfg)))
+        outs = harness.run_detector_outputs(tealer, "group-size-check")
+    got: Dict[int, Any] = {}
+    for o in outs:
+        name = o._teal.contract_name  # pylint: disable=protected-access
+        got[int(name[1:])] = [[b.idx for b in p] for p in o.paths]
+    import shutil  # pylint: disable=import-outside-toplevel
+
+    shutil.rmtree(d, ignore_errors=True)
+    return got
 
 
 def isolated(fn: Callable[[], Any]) -> Any:
@@ -188,6 +231,12 @@ def items(tier: str) -> List[Any]:
     for contract in range(k):
         for hs in (0, 1, 2, 3, "seed"):
             out.append(("hashseed", contract, hs))
+    # several contracts inside ONE Tealer (group configuration): every order of every pair, some triples
+    n = len(POOL)
+    for a, b in itertools.permutations(range(n), 2):
+        out.append(("multi", [a, b]))
+    for tri in itertools.permutations((3, 0, 8, 4), 3):
+        out.append(("multi", list(tri)))
     return out
 
 
@@ -280,6 +329,19 @@ def worker(item: Any, res: runner.Result) -> None:  # pylint: disable=too-many-l
         if d:
             res.violation("C14.iteration-order-changes-result", item, line=f"{which}:{pi}", contract=ci, differs=d)
         res.count("analyses")
+    elif kind == "multi":
+        order = item[1]
+
+        def run4() -> Dict[int, Any]:
+            return multi_contract(order)
+
+        got = isolated(run4)
+        for ci, paths in got.items():
+            res.count("snapshots_compared")
+            if paths != base[ci]["detectors"]["group-size-check"][0]:
+                res.violation("C14.other-contracts-in-the-same-run-change-result", item, line=repr(order), contract=ci,
+                              expected=base[ci]["detectors"]["group-size-check"][0], actual=paths)
+        res.count("analyses", len(order))
     elif kind == "hashseed":
         _, ci, hs = item
         seed = str(hs if hs != "seed" else int(os.environ.get("VERIF_SEED", "0") or 0) % 4294967295)
